@@ -320,6 +320,46 @@ func (c *Ctx) firstTreeConv(pkgRel, recv string) {
 		}
 		c.Check(good, "FIRST", name+".FirstTree/first-element", fcall.Pos(), "converts the first element unconditionally and leaves the loop", "FirstTree does not unconditionally convert the first element and stop: it may return a later tree than the first one the iterator delivers").Clause = clause
 	}
+	// when the source is an element of a slice, "no element" must give "no tree" (nil): the reader
+	// entry points tell an empty document from a tree by testing FirstTree's result against nil. The
+	// tree FirstTree returns is therefore created only where an element exists: inside the range
+	// over the slice, or under a test of its length.
+	if src := strings.TrimSuffix(strings.TrimPrefix(firstOf(fk), "range("), ")"); src != "" || strings.HasPrefix(fk, "range(") {
+		if src == "" {
+			src = strings.TrimSuffix(strings.TrimPrefix(fk, "range("), ")")
+		}
+		so := c.localExpansions(info, ft.Decl.Body)
+		if r := recvObj(info, ft.Decl); r != nil {
+			so.subst[r] = "$R"
+		}
+		var sites []*ast.CallExpr
+		for _, cl := range callsIn(ft.Decl.Body, false) {
+			if g := calleeOf(info, cl); g != nil && (isRepoFunc(g, "tree", "", "NewTree") || (fp.builder != nil && g == fp.builder.Obj)) {
+				sites = append(sites, cl)
+			}
+		}
+		okAll := len(sites) > 0
+		var at token.Pos = ft.Decl.Pos()
+		for _, cl := range sites {
+			guarded := false
+			for _, a := range stackTo(ft.Decl.Body, cl) {
+				if rs, ok := a.(*ast.RangeStmt); ok && c.canon(info, rs.X, so) == src {
+					guarded = true
+				}
+			}
+			if conds, okc := c.pathConds(info, ft.Decl.Body, cl, false); okc {
+				for _, cd := range conds {
+					if cd.Expr != nil && strings.Contains(c.canon(info, cd.Expr, so), "len("+src+")") {
+						guarded = true
+					}
+				}
+			}
+			if !guarded {
+				okAll, at = false, cl.Pos()
+			}
+		}
+		c.Check(okAll, "FIRST", name+".FirstTree/no-element-no-tree", at, "the tree is created only where a source element exists", "FirstTree creates the tree it returns outside any test that an element of "+src+" exists: a document without such an element yields an empty non-nil tree (nil root) instead of nil, and the entry points that test the result against nil deliver it as a success").Clause = "returns either a tree ... or an error"
+	}
 	c.firstTreeSelf(name, clause, ft, fcall, ftree, fp.pass, fp.builder != nil)
 	// the error of the conversion is delivered by the iterator
 	if ip.pass {
